@@ -20,6 +20,10 @@ BoundaryAllowed(prev, ev) ==
   /\ prev.what = ev.what /\ prev.form = "tainted" /\ Eq(prev.in, ev.in)
   /\ prev.out = ev.out /\ Eq(prev.guest_saw, ev.guest_saw)
 
+\* a pointer returned by a callback (declared with either wrapper form) reaches the guest as the
+\* representation of the address the wrapper designated (null: 0)
+CbPtrAllowed(ev) == ev.out = "ok" /\ Eq(ev.guest_saw, ev.want)
+
 \* compile-time side of the same sentence: a program that differs from an accepted one only in
 \* passing / returning the opaque form of the same values is accepted too (and vice versa)
 FormPairAllowed(ev) == ev.tainted = ev.opaque
